@@ -3,8 +3,9 @@ CONSTANTS MaxL = 16777216
           Cfgs = {}
           ZeroBudget = 0
           Limit = 2096896
+          MaxHeld = 1000000
           Devs = @DEVS@
-INVARIANTS TTypeOK Conservation Lossless NoEmpty TWithinLimit TMinMaxRespected DeterministicCuts DevReport
+INVARIANTS TTypeOK Conservation Lossless NoEmpty TWithinLimit TMinMaxRespected DeterministicCuts HeldLossless DevReport
 CONSTRAINT TraceConstraint
 POSTCONDITION TracePost
 CHECK_DEADLOCK FALSE
